@@ -104,6 +104,7 @@ func (e *Engine) chanSend(st *State, ch PtrV, v Value, where string) {
 		e.chanEvent(st, EvChanSend, ch, where)
 		return
 	}
+again:
 	for _, al := range e.chanAlts(st, ch) {
 		if al.o == nil {
 			e.fail(st, al.g, "noblock:send-on-nil-channel", where)
@@ -112,7 +113,9 @@ func (e *Engine) chanSend(st *State, ch PtrV, v Value, where string) {
 		cc := al.cc
 		e.fail(st, c.And(al.g, cc.Closed), "nopanic:send-on-closed-channel", where)
 		room := c.Ult(cc.Count, c.BV(uint64(cc.Cap), 32))
-		e.blockUntil(st, c.Or(c.Not(al.g), room), "send-would-block-forever", where)
+		if e.blockUntil(st, c.Or(c.Not(al.g), room), "send-would-block-forever", where) {
+			goto again
+		}
 		st.Heap[al.o] = e.chanPush(cc, c.And(al.g, room), v)
 	}
 }
@@ -133,6 +136,7 @@ func (e *Engine) chanRecv(st *State, ch PtrV, commaOk bool, typ types.Type, wher
 		}
 		return e.zero(et)
 	}
+again:
 	res := e.zero(et)
 	okT := c.False
 	for _, al := range e.chanAlts(st, ch) {
@@ -142,7 +146,9 @@ func (e *Engine) chanRecv(st *State, ch PtrV, commaOk bool, typ types.Type, wher
 		}
 		cc := al.cc
 		has := c.Ne(cc.Count, c.BV(0, 32))
-		e.blockUntil(st, c.Or(c.Not(al.g), has, cc.Closed), "receive-would-block-forever", where)
+		if e.blockUntil(st, c.Or(c.Not(al.g), has, cc.Closed), "receive-would-block-forever", where) {
+			goto again
+		}
 		nc, v := e.chanPop(cc, c.And(al.g, has), et)
 		st.Heap[al.o] = nc
 		res = e.Merge(c.And(al.g, has), v, res)
@@ -209,14 +215,12 @@ func (e *Engine) selectOp(fr *frame, st *State, regs map[ssa.Value]Value, x *ssa
 			return mk(idx, ev.Res, zeros())
 		}
 	}
-	rv := zeros()
-	idx := c.BV(^uint64(0), 64)
-	okT := c.False
-	taken := c.False
+	var rv []Value
+	var idx, okT, taken smt.Term
 	// Timer channels are modelled as already expired; a real timer fires only if nothing else is
 	// ready when the select is entered, so ready non-timer cases are taken first (source order
 	// within each group).
-	var order []int
+	var nonTimer, timers []int
 	riOf := make([]int, len(x.States))
 	chans := make([]PtrV, len(x.States))
 	nri := 0
@@ -236,65 +240,98 @@ func (e *Engine) selectOp(fr *frame, st *State, regs map[ssa.Value]Value, x *ssa
 		return false
 	}
 	for i := range x.States {
-		if !isTimer(chans[i]) {
-			order = append(order, i)
-		}
-	}
-	for i := range x.States {
 		if isTimer(chans[i]) {
-			order = append(order, i)
+			timers = append(timers, i)
+		} else {
+			nonTimer = append(nonTimer, i)
 		}
 	}
-	for _, i := range order {
-		s := x.States[i]
-		ri := riOf[i]
-		ch := chans[i]
-		if e.sharedChan(st, ch) {
-			panic(e.unsupported("multi-case select on a channel shared between threads at " + where))
-		}
-		alts := e.chanAlts(st, ch)
-		if s.Dir == types.SendOnly {
-			var v Value
+	evalGroup := func(order []int) {
+		for _, i := range order {
+			s := x.States[i]
+			ri := riOf[i]
+			ch := chans[i]
+			if e.sharedChan(st, ch) {
+				panic(e.unsupported("multi-case select on a channel shared between threads at " + where))
+			}
+			alts := e.chanAlts(st, ch)
+			if s.Dir == types.SendOnly {
+				var v Value
+				for _, al := range alts {
+					if al.o == nil {
+						continue
+					}
+					cc := al.cc
+					ready := c.And(al.g, c.Ult(cc.Count, c.BV(uint64(cc.Cap), 32)), c.Not(cc.Closed))
+					take := c.And(ready, c.Not(taken))
+					if take.IsFalse() {
+						continue
+					}
+					if v == nil {
+						v = e.operand(fr, regs, s.Send)
+					}
+					st.Heap[al.o] = e.chanPush(cc, take, v)
+					idx = c.Ite(take, c.BV(uint64(i), 64), idx)
+					taken = c.Or(taken, take)
+				}
+				continue
+			}
 			for _, al := range alts {
 				if al.o == nil {
 					continue
 				}
 				cc := al.cc
-				ready := c.And(al.g, c.Ult(cc.Count, c.BV(uint64(cc.Cap), 32)), c.Not(cc.Closed))
+				has := c.Ne(cc.Count, c.BV(0, 32))
+				ready := c.And(al.g, c.Or(has, cc.Closed))
 				take := c.And(ready, c.Not(taken))
 				if take.IsFalse() {
 					continue
 				}
-				if v == nil {
-					v = e.operand(fr, regs, s.Send)
-				}
-				st.Heap[al.o] = e.chanPush(cc, take, v)
+				nc, v := e.chanPop(cc, c.And(take, has), recvT[ri])
+				st.Heap[al.o] = nc
+				rv[ri] = e.Merge(c.And(take, has), v, rv[ri])
+				okT = c.Ite(take, has, okT)
 				idx = c.Ite(take, c.BV(uint64(i), 64), idx)
 				taken = c.Or(taken, take)
 			}
-			continue
-		}
-		for _, al := range alts {
-			if al.o == nil {
-				continue
-			}
-			cc := al.cc
-			has := c.Ne(cc.Count, c.BV(0, 32))
-			ready := c.And(al.g, c.Or(has, cc.Closed))
-			take := c.And(ready, c.Not(taken))
-			if take.IsFalse() {
-				continue
-			}
-			nc, v := e.chanPop(cc, c.And(take, has), recvT[ri])
-			st.Heap[al.o] = nc
-			rv[ri] = e.Merge(c.And(take, has), v, rv[ri])
-			okT = c.Ite(take, has, okT)
-			idx = c.Ite(take, c.BV(uint64(i), 64), idx)
-			taken = c.Or(taken, take)
 		}
 	}
+retry:
+	rv = zeros()
+	idx = c.BV(^uint64(0), 64)
+	okT = c.False
+	taken = c.False
+	evalGroup(nonTimer)
+	if taken.IsTrue() {
+		e.fireTimer = false
+	}
+	if e.GoPolicy == "coro" && st.Th == nil && len(timers) > 0 && !st.G.IsFalse() && !c.And(st.G, c.Not(taken)).IsFalse() {
+		// a timer case is only taken when nothing else can happen any more
+		definite := c.And(st.G, taken).IsFalse()
+		if e.cur != nil {
+			if !definite {
+				panic(e.unsupported("select with a timer whose other cases depend on symbolic data inside a goroutine at " + where))
+			}
+			if !e.fireTimer {
+				e.park(st, true, where)
+				goto retry
+			}
+			e.fireTimer = false
+			e.cur.retrying = false
+		} else if definite && !e.mainRetrying && e.liveCoros() {
+			e.runCoros(st)
+			e.mainRetrying = true
+			goto retry
+		}
+	}
+	evalGroup(timers)
 	if x.Blocking {
-		e.blockUntil(st, taken, "select-would-block-forever", where)
+		if e.blockUntil(st, taken, "select-would-block-forever", where) {
+			goto retry
+		}
+	}
+	if e.cur == nil {
+		e.mainRetrying = false
 	}
 	return mk(idx, okT, rv)
 }
